@@ -75,13 +75,17 @@ INVARIANT EmitInv
 '''
 
 
-def make(rows, weighted, threads, weight_key='weight', loglike_key='log_like'):
+def make(rows, weighted, threads, weight_key='weight', loglike_key='log_like', labels=0):
     import pandas as pd
     import biogeme.biogeme as bio
     import biogeme.database as db
     import biogeme.expressions as ex
 
     df = pd.DataFrame({'x': [float(r['x']) for r in rows], 'z': [float(r['z']) for r in rows], 'w': [r['w2'] / 2.0 for r in rows]})
+    # the rows of a data set are its rows in table order, whatever their labels (a table that was filtered, sorted or
+    # concatenated keeps the labels it had)
+    n_ = len(rows)
+    df.index = [list(range(n_)), list(range(n_ - 1, -1, -1)), [10 * (k + 1) for k in range(n_)], [(7 * k + 3) % n_ for k in range(n_)] if n_ not in (7,) else list(range(n_))][labels % 4]
     d = db.Database('c04', df)
     b1 = ex.Beta('b1', 0, None, None, 0)
     b2 = ex.Beta('b2', 0, None, None, 0)
@@ -120,7 +124,7 @@ def replay(args):
             # both documented spellings of the formula names are used
             wkey = 'weight' if (threads + n_rows) % 2 == 0 else 'weights'
             lkey = 'log_like' if threads % 3 != 2 else 'loglike'
-            b, d, ll = make(rows, weighted, threads, wkey, lkey)
+            b, d, ll = make(rows, weighted, threads, wkey, lkey, labels=threads + len(rows))
             resolved = threads if threads > 0 else os.cpu_count()
             if b.number_of_threads != resolved:
                 out.append(dict(what='number_of_threads resolution', got=b.number_of_threads, want=resolved))
@@ -201,8 +205,8 @@ def replay(args):
     for k in range(1, n_rows):
         for weighted in (False, True):
             key = 'weighted' if weighted else 'plain'
-            ba, _, _ = make(rows[:k], weighted, 2)
-            bb, _, _ = make(rows[k:], weighted, 3)
+            ba, _, _ = make(rows[:k], weighted, 2, labels=1)
+            bb, _, _ = make(rows[k:], weighted, 3, labels=2)
             for p, pt in enumerate(POINTS):
                 x = [float(pt[0]), float(pt[1])]
                 fa = ba.calculate_likelihood(x, scaled=False)
